@@ -42,6 +42,19 @@ func checkC15(c *Ctx) {
 	c.c15RangeShrink()
 	c.c15Protocol()
 	c.c15Labelling()
+	// the count sums the deleters' nil results: it equals the entries removed only if the in-module Delete reports nil exactly once
+	// per removed entry — presence check and removal in one critical section (two concurrent invalidations sharing a key must not
+	// both count it), nil only with evidence of presence
+	c.borrow("C08", func() {
+		for _, b := range backends {
+			c.c08Backend(b)
+		}
+	}, func(o *coreObl) (string, bool) { return "R15.4", o.Rule == "R08.2" && strings.HasSuffix(o.Construct, ".Delete") })
+	c.borrow("C07", func() {
+		for _, b := range backends {
+			c.c07Delete(b)
+		}
+	}, func(o *coreObl) (string, bool) { return "R15.4", o.Rule == "R07.3" })
 }
 
 // indexDerived reports whether v is (part of) the shared index on this path.
